@@ -60,6 +60,54 @@ DECL_setkey(contract_C02_setkey);
 #endif
 
 #ifdef VERIF_TU_CHECKER
+/* ============ checker configuration: whole-state postconditions (C04) ==== */
+/* "the policy in force is that of the most recent configuration calls": each
+ * call's effect on (claims mask, leeways) is a function of the old state and
+ * the arguments, everything else unchanged -- by induction over any call
+ * sequence the policy is what the calls said, in order. */
+VERIF_OBS_DECL(tl_claim) VERIF_OBS_DECL(tl_secs) VERIF_OBS_DECL(tl_old)
+int contract_C04_jwt_checker_time_leeway(jwt_checker_t *__cmd, jwt_claims_t claim, time_t secs)
+__CPROVER_requires(__cmd == NULL || __CPROVER_is_fresh(__cmd, sizeof(*__cmd)))
+__CPROVER_requires(__cmd == NULL || (OBS(tl_claim, claim) && OBS(tl_secs, secs) && OBS(tl_old, __cmd->c.claims)))
+__CPROVER_assigns(__cmd != NULL: __cmd->c.exp, __cmd->c.nbf, __cmd->c.claims)
+__CPROVER_ensures((__CPROVER_return_value == 0) == (__cmd != NULL && (claim == JWT_CLAIM_EXP || claim == JWT_CLAIM_NBF)))
+/* exp: leeway stored; check off iff secs is negative (documented: -1), on otherwise */
+__CPROVER_ensures((__cmd != NULL && claim == JWT_CLAIM_EXP) ==> (__cmd->c.exp == secs && __cmd->c.nbf == __CPROVER_old(__cmd->c.nbf) &&
+	__cmd->c.claims == (secs < 0 ? (__CPROVER_old(__cmd->c.claims) & ~JWT_CLAIM_EXP) : (__CPROVER_old(__cmd->c.claims) | JWT_CLAIM_EXP))))
+__CPROVER_ensures((__cmd != NULL && claim == JWT_CLAIM_NBF) ==> (__cmd->c.nbf == secs && __cmd->c.exp == __CPROVER_old(__cmd->c.exp) &&
+	__cmd->c.claims == (secs < 0 ? (__CPROVER_old(__cmd->c.claims) & ~JWT_CLAIM_NBF) : (__CPROVER_old(__cmd->c.claims) | JWT_CLAIM_NBF))))
+/* any other claim: refused, nothing changes */
+__CPROVER_ensures((__cmd != NULL && claim != JWT_CLAIM_EXP && claim != JWT_CLAIM_NBF) ==> (__cmd->c.claims == __CPROVER_old(__cmd->c.claims) &&
+	__cmd->c.exp == __CPROVER_old(__cmd->c.exp) && __cmd->c.nbf == __CPROVER_old(__cmd->c.nbf)))
+;
+#endif
+
+#ifdef VERIF_TU_BUILDER
+/* ============ builder configuration (C10) ================================ */
+VERIF_OBS_DECL(to_claim) VERIF_OBS_DECL(to_secs) VERIF_OBS_DECL(to_old)
+int contract_C10_jwt_builder_time_offset(jwt_builder_t *__cmd, jwt_claims_t claim, time_t secs)
+__CPROVER_requires(__cmd == NULL || __CPROVER_is_fresh(__cmd, sizeof(*__cmd)))
+__CPROVER_requires(__cmd == NULL || (OBS(to_claim, claim) && OBS(to_secs, secs) && OBS(to_old, __cmd->c.claims)))
+__CPROVER_assigns(__cmd != NULL: __cmd->c.exp, __cmd->c.nbf, __cmd->c.claims)
+__CPROVER_ensures((__CPROVER_return_value == 0) == (__cmd != NULL && (claim == JWT_CLAIM_EXP || claim == JWT_CLAIM_NBF)))
+/* documented: secs <= 0 disables the claim, a positive offset enables it */
+__CPROVER_ensures((__cmd != NULL && claim == JWT_CLAIM_EXP) ==> (__cmd->c.exp == secs && __cmd->c.nbf == __CPROVER_old(__cmd->c.nbf) &&
+	__cmd->c.claims == (secs <= 0 ? (__CPROVER_old(__cmd->c.claims) & ~JWT_CLAIM_EXP) : (__CPROVER_old(__cmd->c.claims) | JWT_CLAIM_EXP))))
+__CPROVER_ensures((__cmd != NULL && claim == JWT_CLAIM_NBF) ==> (__cmd->c.nbf == secs && __cmd->c.exp == __CPROVER_old(__cmd->c.exp) &&
+	__cmd->c.claims == (secs <= 0 ? (__CPROVER_old(__cmd->c.claims) & ~JWT_CLAIM_NBF) : (__CPROVER_old(__cmd->c.claims) | JWT_CLAIM_NBF))))
+__CPROVER_ensures((__cmd != NULL && claim != JWT_CLAIM_EXP && claim != JWT_CLAIM_NBF) ==> (__cmd->c.claims == __CPROVER_old(__cmd->c.claims) &&
+	__cmd->c.exp == __CPROVER_old(__cmd->c.exp) && __cmd->c.nbf == __CPROVER_old(__cmd->c.nbf)))
+;
+int contract_C10_jwt_builder_enable_iat(jwt_builder_t *__cmd, int enable)
+__CPROVER_requires(__cmd == NULL || __CPROVER_is_fresh(__cmd, sizeof(*__cmd)))
+__CPROVER_assigns(__cmd != NULL: __cmd->c.claims)
+__CPROVER_ensures(__cmd == NULL ==> __CPROVER_return_value == -1)
+__CPROVER_ensures(__cmd != NULL ==> (__CPROVER_return_value == ((__CPROVER_old(__cmd->c.claims) & JWT_CLAIM_IAT) ? 1 : 0) &&
+	__cmd->c.claims == (enable ? (__CPROVER_old(__cmd->c.claims) | JWT_CLAIM_IAT) : (__CPROVER_old(__cmd->c.claims) & ~JWT_CLAIM_IAT))))
+;
+#endif
+
+#ifdef VERIF_TU_CHECKER
 /* ===================== jwt_checker_verify (top level) =================== */
 /* The top-level function is verified as PLUMBING between three abstract
  * bodies (stubs/verify_top.c: jwt_new, jwt_parse, jwt_verify_complete) and the
@@ -152,7 +200,11 @@ __CPROVER_ensures((__cmd != NULL && __CPROVER_return_value == 0 && g_vc_key == N
 __CPROVER_ensures((__cmd != NULL && g_cb_called && g_cb_ret != 0) ==> __CPROVER_return_value != 0) \
 __CPROVER_ensures((__cmd != NULL && __CPROVER_return_value == 0) ==> ( \
 	g_vc_has == g_parsed_has && g_vc_type == g_parsed_type && g_vc_int == g_parsed_int && g_vc_str == g_parsed_str))
-DECL_jwt_checker_verify(contract_all_jwt_checker_verify, C14_TOP_CLAUSES C01_TOP_CLAUSES C06_TOP_CLAUSES C02_TOP_CLAUSES C19_TOP_CLAUSES);
+/* C13: the verdict is the one jwt_verify_complete reached on THIS token -- it does
+ * not depend on the error state the checker had before the call */
+#define C13_TOP_CLAUSES \
+__CPROVER_ensures((__cmd != NULL && g_vc_calls == 1) ==> ((__CPROVER_return_value != 0) == (g_vc_error != 0)))
+DECL_jwt_checker_verify(contract_all_jwt_checker_verify, C14_TOP_CLAUSES C01_TOP_CLAUSES C06_TOP_CLAUSES C02_TOP_CLAUSES C19_TOP_CLAUSES C13_TOP_CLAUSES);
 #endif
 
 
@@ -241,7 +293,10 @@ __CPROVER_ensures((__cmd != NULL && __CPROVER_return_value != NULL && (__cmd->c.
 	 g_cs_replace[GEN_IDX_EXP(__cmd)] == 1 && g_cs_target[GEN_IDX_EXP(__cmd)] == g_dc_res[1]))
 /* C19-like for the builder / C13: a failing callback fails the call */
 #define C13_GEN_CLAUSES \
-__CPROVER_ensures((__cmd != NULL && g_cb_called && g_cb_ret != 0) ==> __CPROVER_return_value == NULL)
+__CPROVER_ensures((__cmd != NULL && g_cb_called && g_cb_ret != 0) ==> __CPROVER_return_value == NULL) \
+/* the result is the one jwt_encode_str produced for THIS call, whatever error state the builder had */ \
+__CPROVER_ensures((__cmd != NULL && g_enc_calls == 1) ==> (__CPROVER_return_value == g_enc_ret && \
+	(__cmd->error != 0) == (g_enc_ret == NULL)))
 /* C17: a token is returned only if every step succeeded (no silently dropped iat/nbf/exp) */
 #define C17_GEN_CLAUSES \
 __CPROVER_ensures((__cmd != NULL && __CPROVER_return_value != NULL) ==> ( \
